@@ -50,6 +50,9 @@ fn memory(s: &Spec) -> usize {
         Rsi | MyRsi | Roc => s.n + 1,
         Alma | AlmaCustom => 2 * s.n,
         Pfe => s.n + s.ch[1].n,
+        // not windowed, but on a periodic positive input their exact output is periodic
+        // (Drawdown: constant) once every letter of the cycle has been seen
+        Drawdown | LnReturn => 8,
         _ => s.n,
     }
 }
@@ -342,6 +345,16 @@ pub fn run(ctx: &Ctx) -> CheckOutput {
                 JobOut { stats: st, viols: sink.take(), samples: vec![json!({"clause":"drift","scalar":"f32","view":spec.name(),"steps":len32})] }
             }));
         }
+    }
+    for k in [Drawdown, LnReturn] {
+        let spec = mk(k, 0, Spec::echo());
+        jobs.push(Box::new(move || {
+            let mut st = Stats::default();
+            let sink = Sink::new();
+            drift_windowed::<f64>(&spec, &F4P, period, len64, 1e-6, &mut st, &sink);
+            drift_windowed::<f32>(&spec, &F4P, period.min(3), len32, 1e-2, &mut st, &sink);
+            JobOut { stats: st, viols: sink.take(), samples: vec![] }
+        }));
     }
     if !quick {
         // the full 10^6 horizon on the cycles of period <= 2 for the accumulator views
